@@ -79,6 +79,12 @@ CLAIMED = {
         "alphabets, k up to the largest representable, rows of length w-1, w, w+1 and empty rows. Oracle: per-row plain-Python definitions.",
         "Holds on the explored region only; the small core is complete.",
         "exhaustive small-domain enumeration + Hypothesis sampling, reference-model oracle (per-row Python definitions)"),
+    "C14": (
+        "Exhaustive over every DNA string of length <= 4 on {A,C,G,T,N,a,c,g,t,n} in ASCII and ACGTn (and ACGT thorough), all 64 codons, all "
+        "codon pairs and a stride (all, thorough) of codon triples; Hypothesis for longer strings, stranded interval sets of 1..8 and 17..40 "
+        "intervals on a flat sequence and on a multi-chromosome GenomicSequence. Two independent oracles: a table-driven model and Biopython.",
+        "Holds on the explored region; the small cores are complete. Output case is compared case-insensitively.",
+        "exhaustive small-domain enumeration + Hypothesis sampling, two reference oracles (table model, Biopython), involution law"),
     "C15": (
         "Fault injection over generated inputs: one format violation of each class is injected at every record position of a well-formed file; "
         "exhaustive over small files x every chunk size x lazy/eager x plain/gzip, sampled for larger files of nine formats. Oracle: an exception "
